@@ -867,5 +867,36 @@ func AdversarialTemplates() []Template {
 			return ethTx(w, 5, &to, 0, nil, 100000, 0)
 		},
 	}}
-	return []Template{fund, veto, sd}
+	// stake leaving V2 (an unbonding entry and a redelegation to V1) in the very block V2 is reported for
+	// a double sign at: the slash reaches the not-bonded pool and the redelegated shares
+	unb := Template{Name: "unbondFromV2+doubleSignEvidence", Evidence: true, Steps: []func(w *world.World, _ precomp.ABIs) []byte{
+		func(w *world.World, _ precomp.ABIs) []byte {
+			return cosmosTx(w, 0, stakingtypes.NewMsgUndelegate(w.Addrs[0], w.ValAddr[1], sdk.NewCoin(world.Denom, sdkmath.NewInt(1000000000000000000))))
+		},
+		func(w *world.World, _ precomp.ABIs) []byte {
+			return cosmosTx(w, 0, stakingtypes.NewMsgBeginRedelegate(w.Addrs[0], w.ValAddr[1], w.ValAddr[0], sdk.NewCoin(world.Denom, sdkmath.NewInt(500000000000000000))))
+		},
+	}}
+	// a delegator tries to name pinned module accounts as its reward receiver, by message and through
+	// the distribution precompile; rewards keep accruing afterwards
+	wdr := Template{Name: "withdrawAddressToModuleAccounts", Steps: func() []func(w *world.World, abis precomp.ABIs) []byte {
+		steps := []func(w *world.World, abis precomp.ABIs) []byte{
+			func(w *world.World, _ precomp.ABIs) []byte {
+				return cosmosTx(w, 4, stakingtypes.NewMsgDelegate(w.Addrs[4], w.ValAddr[0], sdk.NewCoin(world.Denom, sdkmath.NewInt(1000000000000000000))))
+			},
+		}
+		for _, t := range targets {
+			t := t
+			steps = append(steps,
+				func(w *world.World, _ precomp.ABIs) []byte {
+					return cosmosTx(w, 4, distrtypes.NewMsgSetWithdrawAddress(w.Addrs[4], mod(t)))
+				},
+				func(w *world.World, abis precomp.ABIs) []byte {
+					to := precomp.DistrAddr
+					return ethTx(w, 4, &to, 0, precomp.MustPack(abis.Distr, "setWithdrawAddress", w.Eth[4], mod(t).String()), 300000, 0)
+				})
+		}
+		return steps
+	}()}
+	return []Template{fund, veto, sd, unb, wdr}
 }
